@@ -253,8 +253,30 @@ def get_controls():
 DATES = ["2000-03-01", "2000-03-02", "2000-03-03", "2000-03-04"]
 
 
+EXACT = [True]          # arithmetic of the current pass: exact rationals (Ex) or floats
+
+
+def N(x):
+    """a number of the current arithmetic"""
+    if isinstance(x, Ex):
+        x = x.q
+    return Ex(F(x)) if EXACT[0] else float(F(x))
+
+
 def cx(x):
-    return NG.conv(copy.deepcopy(x), "exact")
+    """parameters in the current arithmetic: Fractions are converted, floats (the library's own default values) and
+    ints are left bit for bit as they are"""
+    if isinstance(x, bool) or x is None or isinstance(x, (str, int, float)):
+        return x
+    if isinstance(x, (F, Ex)):
+        return N(x)
+    if isinstance(x, list):
+        return [cx(y) for y in x]
+    if isinstance(x, tuple):
+        return tuple(cx(y) for y in x)
+    if isinstance(x, dict):
+        return {k: cx(v) for k, v in x.items()}
+    return x
 
 
 def monthly(val=F(1, 10 ** 5)):
@@ -262,7 +284,7 @@ def monthly(val=F(1, 10 ** 5)):
     d = {}
     for var in ("nhx", "noy", "srp"):
         for kind in ("dry", "wet", "fertiliser", "manure"):
-            d[(f"{var}-{kind}", pd.Period("2000-03", "M"))] = Ex(val)
+            d[(f"{var}-{kind}", pd.Period("2000-03", "M"))] = N(val)
     return d
 
 
@@ -274,7 +296,7 @@ def resolve(rig, p):
         if isinstance(v, str) and v == "vq":
             p[k] = rig.vq(8, F(1, 10), F(10))
         elif k == "data_input_dict" and isinstance(v, (list, tuple)) and len(v) == 2 and v[0] == "monthly":
-            p[k] = monthly(F(v[1].q) if isinstance(v[1], Ex) else F(v[1]))
+            p[k] = monthly(v[1])
     if p.pop("monthly", False):
         p["data_input_dict"] = monthly()
     return p
@@ -310,9 +332,9 @@ class Rig:
         import pandas as pd
         d = {}
         for i, t in enumerate(DATES):
-            d[("temperature", pd.Timestamp(t))] = Ex(F(9 + 2 * i))
+            d[("temperature", pd.Timestamp(t))] = N(F(9 + 2 * i))
             for var, val in extra:
-                d[(var, pd.Timestamp(t))] = Ex(val[i] if isinstance(val, (list, tuple)) else val)
+                d[(var, pd.Timestamp(t))] = N(val[i] if isinstance(val, (list, tuple)) else val)
         return d
 
     def node(self, type_, name, **kw):
@@ -325,17 +347,17 @@ class Rig:
         import wsimod.arcs.arcs as arcs
         nm = f"{a}-{b}"
         if "capacity" not in kw:
-            kw["capacity"] = Ex(UNBOUNDED)
+            kw["capacity"] = N(UNBOUNDED)
         arc = getattr(arcs, type_)(name=nm, in_port=self.nodes[a], out_port=self.nodes[b], **kw)
         self.arcs[nm] = arc
         return arc
 
     def neighbours(self, tname, pulls_from="U"):
         """source U -> target -> {D store, S sewer, G groundwater, J junction -> W outlet}"""
-        self.node("Storage", "U", capacity=Ex(1000), area=Ex(10), initial_storage=self.vq(400, F(1, 20), F(8)))
-        self.node("Storage", "D", capacity=Ex(60), area=Ex(5), initial_storage=self.vq(10, F(1, 5), F(15)))
-        self.node("Sewer", "S", capacity=Ex(45), pipe_timearea={0: Ex(F(1, 2)), 1: Ex(F(1, 2))})
-        self.node("Groundwater", "G", capacity=Ex(500), area=Ex(10), residence_time=Ex(4), initial_storage=self.vq(20))
+        self.node("Storage", "U", capacity=N(1000), area=N(10), initial_storage=self.vq(400, F(1, 20), F(8)))
+        self.node("Storage", "D", capacity=N(60), area=N(5), initial_storage=self.vq(10, F(1, 5), F(15)))
+        self.node("Sewer", "S", capacity=N(45), pipe_timearea={0: N(F(1, 2)), 1: N(F(1, 2))})
+        self.node("Groundwater", "G", capacity=N(500), area=N(10), residence_time=N(4), initial_storage=self.vq(20))
         self.node("Node", "J")
         self.node("Waste", "W")
         self.arc("U", tname)
@@ -375,7 +397,7 @@ class Rig:
                 if kind == "push":
                     return xsnap(self.arcs[op[1]].send_push_request(self.vq(*op[2]), tag=op[3]))
                 if kind == "pull":
-                    return xsnap(self.arcs[op[1]].send_pull_request({"volume": Ex(op[2])}, tag=op[3]))
+                    return xsnap(self.arcs[op[1]].send_pull_request({"volume": N(op[2])}, tag=op[3]))
                 if kind == "pushcheck":
                     return xsnap(self.arcs[op[1]].send_push_check(tag=op[2]))
                 if kind == "pullcheck":
@@ -390,8 +412,8 @@ class Rig:
                     t.treat_current_input()
                     return xsnap({"treated": t.treated, "liquor": t.liquor, "solids": t.solids})
                 if kind == "t":          # method of the target with plain arguments
-                    args = [self.vq(*a) if isinstance(a, tuple) else ({"volume": Ex(a["volume"])} if isinstance(a, dict) else
-                                                                      (Ex(a) if isinstance(a, (int, F)) and not isinstance(a, bool) else a)) for a in op[2]]
+                    args = [self.vq(*a) if isinstance(a, tuple) else ({"volume": N(a["volume"])} if isinstance(a, dict) else
+                                                                      (N(a) if isinstance(a, (int, F)) and not isinstance(a, bool) else a)) for a in op[2]]
                     kw = op[3] if len(op) > 3 else {}
                     return xsnap(getattr(self.target, op[1])(*args, **kw))
                 if kind == "tq":         # internal arc of a queue tank
@@ -509,13 +531,13 @@ def tank_over(cls):
 def arc_make(cls):
     def make(rig, p):
         p = resolve(rig, p)
-        rig.node("Storage", "U", capacity=Ex(1000), area=Ex(10), initial_storage=rig.vq(400, F(1, 20), F(8)), data_input_dict=rig.tdata())
-        rig.node("Storage", "D", capacity=Ex(60), area=Ex(5), initial_storage=rig.vq(10, F(1, 5), F(15)))
+        rig.node("Storage", "U", capacity=N(1000), area=N(10), initial_storage=rig.vq(400, F(1, 20), F(8)), data_input_dict=rig.tdata())
+        rig.node("Storage", "D", capacity=N(60), area=N(5), initial_storage=rig.vq(10, F(1, 5), F(15)))
         rig.node("Waste", "W")
         if cls == "DecayArcAlt":
             p["parent"] = rig.nodes["U"]
         a = rig.arc("U", "D", type_=cls, **p)
-        rig.arc("U", "W", capacity=Ex(25), preference=Ex(F(1, 2)))
+        rig.arc("U", "W", capacity=N(25), preference=N(F(1, 2)))
         return a
     return make
 
@@ -708,20 +730,20 @@ def land_surfaces(rig, target_type, p, companion=True):
     s.setdefault("surface", "target")
     out = [s]
     if companion:
-        out.append({"type_": "ImperviousSurface", "surface": "paved", "area": Ex(30), "pore_depth": Ex(F(1, 100)),
-                    "pollutant_load": {adds[0]: Ex(F(1, 100))}, "decays": {}, "data_input_dict": {}})
+        out.append({"type_": "ImperviousSurface", "surface": "paved", "area": N(30), "pore_depth": N(F(1, 100)),
+                    "pollutant_load": {adds[0]: N(F(1, 100))}, "decays": {}, "data_input_dict": {}})
     return out
 
 
 def land_env(rig, surfaces, land_params=None):
-    lp = {"surface_residence_time": Ex(2), "subsurface_residence_time": Ex(3), "percolation_residence_time": Ex(6)}
+    lp = {"surface_residence_time": N(2), "subsurface_residence_time": N(3), "percolation_residence_time": N(6)}
     lp.update(land_params or {})
     data = rig.tdata(extra=(("precipitation", [F(1, 50), F(0), F(1, 10), F(1, 200)]), ("et0", [F(1, 500), F(1, 250), F(0), F(1, 300)])))
     rig.node("Land", "T", surfaces=surfaces, data_input_dict=data, **lp)
-    rig.node("Storage", "U", capacity=Ex(1000), area=Ex(10), initial_storage=rig.vq(400, F(1, 20), F(8)))
+    rig.node("Storage", "U", capacity=N(1000), area=N(10), initial_storage=rig.vq(400, F(1, 20), F(8)))
     rig.node("Node", "JU")
-    rig.node("Sewer", "S", capacity=Ex(45), pipe_timearea={0: Ex(F(1, 2)), 1: Ex(F(1, 2))})
-    rig.node("Groundwater", "G", capacity=Ex(500), area=Ex(10), residence_time=Ex(4), initial_storage=rig.vq(20))
+    rig.node("Sewer", "S", capacity=N(45), pipe_timearea={0: N(F(1, 2)), 1: N(F(1, 2))})
+    rig.node("Groundwater", "G", capacity=N(500), area=N(10), residence_time=N(4), initial_storage=rig.vq(20))
     rig.node("Node", "J")
     rig.node("Waste", "W")
     rig.arc("U", "JU")
@@ -859,9 +881,9 @@ def set_nonctor(obj, extras):
 
 def pool_make(rig, p):
     from wsimod.nodes.nutrient_pool import NutrientPool
-    sp = {"area": Ex(40), "rooting_depth": Ex(F(1, 2)), "initial_storage": rig.vq(6, F(1, 10), F(10)), "data_input_dict": monthly(),
+    sp = {"area": N(40), "rooting_depth": N(F(1, 2)), "initial_storage": rig.vq(6, F(1, 10), F(10)), "data_input_dict": monthly(),
           "pollutant_load": {}, "decays": {},
-          "initial_soil_storage": {k: Ex(1) for k in ("phosphate", "ammonia", "nitrate", "nitrite", "org-nitrogen", "org-phosphorus")}}
+          "initial_soil_storage": {k: N(1) for k in ("phosphate", "ammonia", "nitrate", "nitrite", "org-nitrogen", "org-phosphorus")}}
     sp.update(copy.deepcopy(GROW_CROP))
     land = land_env(rig, land_surfaces(rig, "GrowingSurface", sp))
     s = land.surfaces[0]
@@ -1011,9 +1033,9 @@ def make_specs():
 
     def land_make(rig, p):
         adds, nons = rig.pols()
-        surfaces = [{"type_": "PerviousSurface", "surface": "soil", "area": Ex(60), "depth": Ex(F(1, 2)), "pollutant_load": {adds[0]: Ex(F(1, 50))}, "decays": {},
+        surfaces = [{"type_": "PerviousSurface", "surface": "soil", "area": N(60), "depth": N(F(1, 2)), "pollutant_load": {adds[0]: N(F(1, 50))}, "decays": {},
                      "data_input_dict": {}, "initial_storage": rig.vq(9, F(1, 10), F(10))},
-                    {"type_": "ImperviousSurface", "surface": "paved", "area": Ex(30), "pore_depth": Ex(F(1, 100)), "pollutant_load": {adds[0]: Ex(F(1, 100))},
+                    {"type_": "ImperviousSurface", "surface": "paved", "area": N(30), "pore_depth": N(F(1, 100)), "pollutant_load": {adds[0]: N(F(1, 100))},
                      "decays": {}, "data_input_dict": {}}]
         return land_env(rig, surfaces, cx(p))
     S["node:Land"] = {"make": land_make,
